@@ -5,7 +5,8 @@
    session); servers in every mode with session tickets disabled.  Chain verification is the abstract predicate
    "the certificate is in c_trusted / s_client_trusted" (what Verify returns at the configured time, name, roots). *)
 From Coq Require Import List NArith Arith Bool Lia.
-From GmsmVerif Require Import Lib.Outcome HS.HSTerms HS.HSModel HS.HSProofs HS.HSClientFlight HS.HSTlsClientFlight HS.HSServerFlight HS.HSAuth HS.HSAuth2 HS.HSNames HS.HSSystem HS.HSSessions.
+From GmsmVerif Require Import Lib.Outcome HS.HSTerms HS.HSModel HS.HSProofs HS.HSClientFlight HS.HSTlsClientFlight HS.HSServerFlight HS.HSAuth HS.HSAuth2 HS.HSNames HS.HSSystem HS.HSSessions
+     HS.HSMsgParsers HS.HSMsgMarshal HS.HSMsgMarshalProofs.
 Import ListNotations.
 Local Open Scope N_scope.
 
@@ -226,6 +227,30 @@ Print Assumptions C08_agreement_sessions.
 Theorem C08_wire_messages_deliverable : forall AK own w m, In (enc_hmsg m) w -> can_deliver AK own w (IHs m).
 Proof. exact wire_message_deliverable. Qed.
 Print Assumptions C08_wire_messages_deliverable.
+
+(* 9. Byte level.  The agreement theorems compare SYMBOLIC transcripts (lists of message terms).  What the two endpoints
+   really compare - through the Finished hashes - are BYTE transcripts.  The byte-level models of marshal / unmarshal
+   (HS/HSMsgMarshal.v, HSMsgParsers.v; round trip and framing proved in C15) close the gap: if the messages one side
+   marshalled (well-formed values ws1) and the messages the other side holds (ws2: marshalled by it, or parsed by it from
+   the bytes it received - by C15_any_message_roundtrip the parse of marshalled bytes is the value itself) give the same
+   bytes, then they are the same message values, one by one, in order; hence they are equal under EVERY abstraction of
+   message values into terms - in particular the symbolic transcripts [map (enc_hmsg o abs)] agree, for whatever
+   abstraction function abs the symbolic model stands for. *)
+Theorem C08_equal_byte_transcripts_equal_views : forall (abs : wire_msg -> hmsg) ctx ws1 ws2,
+  Forall (wf_any ctx) ws1 -> Forall (wf_any ctx) ws2 ->
+  transcript_bytes ctx ws1 = transcript_bytes ctx ws2 ->
+  ws1 = ws2 /\ map (fun w => enc_hmsg (abs w)) ws1 = map (fun w => enc_hmsg (abs w)) ws2.
+Proof.
+  intros abs ctx ws1 ws2 H1 H2 E. pose proof (transcript_bytes_injective ctx ws1 ws2 H1 H2 E) as ->. split; reflexivity.
+Qed.
+Print Assumptions C08_equal_byte_transcripts_equal_views.
+
+(* the receiver's side of it: reading the sender's bytes message by message (readHandshake) yields the sender's values *)
+Theorem C08_receiver_reads_what_sender_marshalled : forall ctx ws,
+  Forall (wf_any ctx) ws ->
+  read_msgs (S (length (transcript_bytes ctx ws))) ctx (transcript_bytes ctx ws) = Ok ws.
+Proof. intros ctx ws H. apply read_msgs_transcript; [exact H|apply Nat.lt_succ_diag_r]. Qed.
+Print Assumptions C08_receiver_reads_what_sender_marshalled.
 
 (* ---- non-vacuity ----------------------------------------------------------------------------------------- *)
 Definition ex_sig := TCert 1 KIND_SM2 KU_SIGN 101.
